@@ -617,6 +617,14 @@ func c16RunJob(j c16Job) (c16JobOut, error) {
 			}
 			keep(r)
 		}
+		// transient read errors of the store below while seeking between segments
+		if j.Stack == "E>FS" {
+			for _, r := range w.runSeekFlaky(j.Stack) {
+				if j.Only == "" || r.Case.Name == j.Only {
+					keep(r)
+				}
+			}
+		}
 		return out, nil
 	}
 	for _, m := range c16Mutations(w, j.Group, j.Stride) {
@@ -806,4 +814,175 @@ func TestC16(t *testing.T) {
 	run.Cov["nontrivial_job_groups"] = len(nontrivial)
 	fmt.Printf("C16: cases=%d outcomes=%v\n     classes=%v\n", cases, counts, perClass)
 	finish(t, run)
+}
+
+// ---- seeks with a transient I/O error of the store below (group "seek") ----------------------
+// The store below the encryption middleware hands out a reader whose k-th Read, once armed,
+// transfers only half of what was asked and fails. Script: read in segment a, seek into segment b
+// (its load hits the failing Read: an error is the expected answer), seek back into segment a and
+// read again. Oracle: every Read returns plaintext bytes of its position or an error.
+
+type c16FlakyStore struct {
+	partstore.PartStore
+	armed  *bool
+	failAt *int // reads left until the failing one (counted while armed)
+}
+
+type c16FlakyReader struct {
+	io.ReadCloser
+	s *c16FlakyStore
+}
+
+var errC16Flaky = fmt.Errorf("injected transient read error")
+
+func (r *c16FlakyReader) Read(p []byte) (int, error) {
+	if *r.s.armed {
+		*r.s.failAt--
+		if *r.s.failAt == 0 {
+			*r.s.armed = false
+			n, _ := r.ReadCloser.Read(p[:(len(p)+1)/2])
+			return n, errC16Flaky
+		}
+	}
+	return r.ReadCloser.Read(p)
+}
+
+func (r *c16FlakyReader) Seek(off int64, whence int) (int64, error) {
+	return r.ReadCloser.(io.Seeker).Seek(off, whence)
+}
+
+func (s *c16FlakyStore) GetPart(ctx context.Context, tx database.Tx, id partstore.PartId) (io.ReadCloser, error) {
+	rc, err := s.PartStore.GetPart(ctx, tx, id)
+	if err != nil {
+		return nil, err
+	}
+	if _, ok := rc.(io.Seeker); !ok {
+		return rc, nil
+	}
+	return &c16FlakyReader{ReadCloser: rc, s: s}, nil
+}
+
+func (s *c16FlakyStore) Capabilities() partstore.Capabilities {
+	return partstore.CapabilitiesOf(s.PartStore)
+}
+
+// runSeekFlaky returns one result per (a, b, failing read) combination.
+func (w *c16World) runSeekFlaky(stack string) (out []c16Result) {
+	L := len(w.plain)
+	segStart := []int{0, c16P1, c16P1 + c16P}
+	var segs []int
+	for _, s := range segStart {
+		if s+20 <= L {
+			segs = append(segs, s)
+		}
+	}
+	if len(segs) < 2 || len(w.env.pool.swaps) == 0 {
+		return nil
+	}
+	// (1) segment b does not authenticate (one ciphertext byte flipped in the stored part)
+	lay := c16Parse(w.raw)
+	for ai, a := range segs {
+		for bi, b := range segs {
+			if ai == bi || bi >= len(lay.segs) {
+				continue
+			}
+			name := fmt.Sprintf("corrupt:read@seg%d,seek-seg%d(does not authenticate),back", ai, bi)
+			if err := w.put(w.inner, w.id, c16Flip(w.raw, lay.segs[bi][0]+3, 0x01)); err != nil {
+				out = append(out, c16Result{Case: c16Case{stack, L, "seek", name}, Outcome: "error", Verdict: "seek-error", Detail: "harness: " + err.Error()})
+				continue
+			}
+			verdict, detail := "", ""
+			err := w.tx(true, func(ctx context.Context, tx database.Tx) error {
+				rc, gerr := w.top.GetPart(ctx, tx, w.id)
+				if gerr != nil {
+					return nil // refusing the part altogether is fine
+				}
+				defer rc.Close()
+				sk, ok := rc.(io.Seeker)
+				if !ok {
+					return nil
+				}
+				for _, pos := range []int{a + 5, b + 3, a + 7} {
+					if _, e := sk.Seek(int64(pos), io.SeekStart); e != nil {
+						continue
+					}
+					buf := make([]byte, 10)
+					n, _ := io.ReadFull(rc, buf)
+					if !bytes.Equal(buf[:n], w.plain[pos:pos+n]) {
+						verdict, detail = "seek-wrong-bytes", fmt.Sprintf("%d bytes read at %d (segment %d of the part does not authenticate) differ from the plaintext (%x instead of %x)", n, pos, bi, buf[:n], w.plain[pos:pos+n])
+					}
+				}
+				return nil
+			})
+			_ = err
+			r := c16Result{Case: c16Case{stack, L, "seek", name}, Outcome: "exact", Verdict: verdict, Detail: detail}
+			if verdict != "" {
+				r.Outcome = "wrong"
+			}
+			out = append(out, r)
+		}
+	}
+	if err := w.put(w.inner, w.id, w.raw); err != nil {
+		panic(err)
+	}
+	// (2) transient read error of the store below
+	armed, failAt := false, 0
+	flaky := &c16FlakyStore{PartStore: w.inner, armed: &armed, failAt: &failAt}
+	w.env.pool.swaps[0].set(flaky)
+	defer w.env.pool.swaps[0].set(w.inner)
+	for ai, a := range segs {
+		for bi, b := range segs {
+			if ai == bi {
+				continue
+			}
+			for k := 1; k <= 3; k++ {
+				name := fmt.Sprintf("flaky:read@seg%d,seek-seg%d(read#%d fails),back", ai, bi, k)
+				verdict, detail := "", ""
+				err := w.tx(true, func(ctx context.Context, tx database.Tx) error {
+					rc, gerr := w.top.GetPart(ctx, tx, w.id)
+					if gerr != nil {
+						return gerr
+					}
+					defer rc.Close()
+					sk, ok := rc.(io.Seeker)
+					if !ok {
+						verdict = "not-seekable"
+						return nil
+					}
+					check := func(pos int, tolerateErr bool) error {
+						if _, e := sk.Seek(int64(pos), io.SeekStart); e != nil {
+							if tolerateErr {
+								return nil
+							}
+							return e
+						}
+						buf := make([]byte, 10)
+						n, e := io.ReadFull(rc, buf)
+						if !bytes.Equal(buf[:n], w.plain[pos:pos+n]) {
+							verdict, detail = "seek-wrong-bytes", fmt.Sprintf("%d bytes read at %d after a transient error of the store below differ from the plaintext (%x instead of %x)", n, pos, buf[:n], w.plain[pos:pos+n])
+						}
+						if e != nil && !tolerateErr {
+							return e
+						}
+						return nil
+					}
+					if e := check(a+5, false); e != nil {
+						return e
+					}
+					armed, failAt = true, k
+					_ = check(b+3, true) // an error is fine here, wrong bytes are not
+					armed = false
+					return check(a+7, true)
+				})
+				r := c16Result{Case: c16Case{stack, L, "seek", name}, Outcome: "exact", Verdict: verdict, Detail: detail}
+				if err != nil && verdict == "" {
+					r.Outcome, r.Verdict, r.Detail = "error", "seek-error", err.Error()
+				} else if verdict != "" {
+					r.Outcome = "wrong"
+				}
+				out = append(out, r)
+			}
+		}
+	}
+	return out
 }
